@@ -316,6 +316,8 @@ class ConcatenatedSensorCache(SensorCache):
         else:
             self.timestamps = np.concatenate([ts[:] for ts in timestamps])
         self._segments = np.cumsum([0] + [len(cache.timestamps) for cache in caches])
+        # All caches share one dump period (needed when this cache is itself part of a concatenated cache)
+        self.dump_period = caches[0].dump_period
         self._set_keep(keep)
 
     def _set_keep(self, keep=None):
